@@ -18,7 +18,7 @@ def shards(tier):
     out = []
     for geo in geos:
         for op in ("add", "remove", "dispense", "aspirate"):
-            for shapes in (["scalar-id", "list-scalar", "list-short"], ["list"], ["2d", "2d-scalar", "2d-flatvols"]):
+            for shapes in (["scalar-id", "list-scalar", "list-short"], ["list"], ["2d", "2d-scalar", "2d-flatvols", "2d-col-flatvols"]):
                 if op in ("aspirate", "dispense") and shapes[0] == "scalar-id":
                     shapes = ["scalar-id", "list-scalar"]
                 out.append(dict(geo=geo, op=op, shapes=shapes, k=(3 if tier == "quick" else 4) if shapes == ["list"] else 2,
